@@ -165,7 +165,7 @@ PROPS = {
             ('routing', r'^GenericSocketBackend::send_round_robin$', A, None),
             ('routing', r'^GenericSocketBackend::peer_connected$', A, None),
             ('routing', r'^DealerSocket::send$|^PushSocket::send$', A, None),
-            ('routing', r'^tmpl::lemma_first_live', A, None),
+            ('routing', r'^tmpl::lemma_(first_live|rotation)', A, None),
             ('reqrep', r'^ReqSocket::send$', A, None),
             ('reqrep', r'^ReqSocketBackend::peer_connected$', A, None),
             ('reqrep', r'^tmpl::lemma_first_live', A, None),
@@ -175,7 +175,7 @@ PROPS = {
             'SinkExt::send completes only after a successful flush (futures contract): the FramedWrite::send stand-in appends to the flushed log exactly on Ok',
             'sequential scope (Arc as Box, D7); SegQueue is a FIFO',
         ],
-        'not_covered': ['"n consecutive sends reach n different peers" is a corollary of the queue postcondition (chosen peer goes to the back) for a duplicate-free queue; duplicate-freedom is established by peer_connected pushing each identity once and is not re-proved as a global invariant'],
+        'not_covered': ['strict rotation is proved as a lemma over the queue postcondition (lemma_rotation_strict: the k-th of n consecutive successful sends goes to the k-th identity of the queue) for a queue whose identities are all live; that the n identities are n DIFFERENT peers needs a duplicate-free queue, which peer_connected establishes by pushing each identity once and which is not re-proved as a global invariant across calls'],
     },
     'C14': {
         'units': ['reqrep', 'routing', 'fairqueue'],
